@@ -64,7 +64,7 @@ class PROP(Prop):
                         line = "SRV %s %s %s - %s" % (proto, mb.rscript([stream]), W, svctok)
                         cs.append(Case(line, {"k": "writefail", "proto": proto, "exp": exp, "clean": False, "off": off}))
             # --- malformed input classes after j good requests
-            for _ in range(60 if tier == "quick" else 400):
+            for _ in range(150 if tier == "quick" else 1000):
                 k = rng.choice([0, 1, 2])
                 frames, hdrs, reqs, svc = gen_pipeline(rng, proto, k)
                 good = b"".join(frames)
@@ -76,6 +76,10 @@ class PROP(Prop):
                         mb.tcp_frame(1, 1, b"\x83\x02"),                                               # fc >= 0x80
                         mb.tcp_frame(1, 1, b"\x10\x00\x01\x00\x02\x03\x00\x01\x00"),                   # bad byte count
                         mb.tcp_frame(1, 1, b"\x0f\x00\x00\xff\xff\x01\xaa"),
+                        mb.tcp_frame(1, 1, b"\x03\x00\x10"),                                           # PDU cut short inside a complete frame
+                        mb.tcp_frame(1, 1, b"\x10\x00\x01\x00\x02\x04\x00\x01"),
+                        mb.tcp_frame(1, 1, b""),                                                       # no PDU at all (length 1)
+                        mb.tcp_frame(1, 1, b"\x16\x00"),
                     ])
                 else:
                     bad = rng.choice([
@@ -84,9 +88,13 @@ class PROP(Prop):
                         mb.rtu_frame(1, b"\x10\x00\x01\x00\x02\x03\x00\x01\x00"),
                         mb.rtu_frame(1, b"\x0f\x00\x00\xff\xff\x01\xaa"),
                     ])
-                after = cligen.frame(proto, 9, 9, b"\x11")
+                # followed by a further good request, by nothing at all (the malformed input is the last thing in the buffer,
+                # the line then stays open or is closed), or arriving in a read of its own
+                after = rng.choice([cligen.frame(proto, 9, 9, b"\x11"), b"", b""])
+                tail = rng.choice([[], ["eof"]])
+                parts = rng.choice([[good + bad + after], [good, bad + after], [good + bad, after]])
                 exp = expected_trace(proto, hdrs, reqs, svc)
-                line = "SRV %s %s - - %s" % (proto, mb.rscript([good + bad + after]), ",".join([svc_tok(e) for e in svc] + ["r=RSI:1:1:-"]))
+                line = "SRV %s %s - - %s" % (proto, mb.rscript(parts, tail), ",".join([svc_tok(e) for e in svc] + ["r=RSI:1:1:-"]))
                 cs.append(Case(line, {"k": "malformed", "proto": proto, "exp": exp, "clean": False}))
         # --- the serial RTU server's own loop over a pty: no error callback, the report is the value serve_until returns
         for _ in range(40 if tier == "quick" else 300):
